@@ -121,11 +121,31 @@ def extract_scatter(effs, target):
     dg = dict_groups(v)
     if dg is not None:
         return Scatter(dg[0], [dg[1] + (st,)], st, problems)
+    cp = dict_compaction(v)
+    if cp is not None:
+        problems.append(('compaction', cp, st))
+        return Scatter(None, [], st, problems)
     ov = dict_overwrite(v)
     if ov is not None:
         problems.append(('overwrite', ov, st))
         return Scatter(None, [], st, problems)
     raise Unknown('value assigned to %s is not a recognised group-by: %s' % (show(target), show(v)[:100]))
+
+
+def dict_compaction(v):
+    """[D[k] for k in sorted(D)] (or in D / D.keys()) with D a dict filled by D.setdefault(key, []).append(x): one list per key
+    that OCCURS - an agent nobody refers to has no slot, and every later agent moves up one position"""
+    if not (v[0] == 'comp' and len(v[1]) == 1 and v[1][0][1] == TRUE):
+        return None
+    b = v[1][0][0]
+    d = b[3]
+    while d[0] == 'call' and d[1] in (S('sorted'), S('list')) and len(d[2]) == 1 and not (len(d) > 3 and d[3]):
+        d = d[2][0]
+    if d[0] == 'call' and d[1][0] == 'attr' and d[1][2] == 'keys' and not d[2]:
+        d = d[1][1]
+    if d[0] == 'accum' and d[1] in (('dict', ()), CALL(S('dict'), [])) and d[2] and all(en[0] in ('appendidx', 'extendidx') for en in d[2]) and v[2] == I(d, b):
+        return 'the groups are read back as [D[k] for k in sorted(D)]: one slot per key that occurs (%s), not one per agent' % show(d[2][0][1])[:60]
+    return None
 
 
 def dict_groups(v):
@@ -148,7 +168,8 @@ def dict_groups(v):
     D = None
     if val[0] == 'call' and val[1][0] == 'attr' and val[1][2] == 'get' and len(val[2]) == 2 and val[2][0] == r and val[2][1] in (('list', ()), ('tuple', ())):
         D = val[1][1]
-    if D is None or D[0] != 'accum' or D[1] != ('dict', ()) or len(D[2]) != 1 or D[2][0][0] != 'appendidx':
+    empty_dicts = (('dict', ()), CALL(S('dict'), []), CALL(S('defaultdict'), [S('list')]), CALL(A(S('collections'), 'defaultdict'), [S('list')]))
+    if D is None or D[0] != 'accum' or D[1] not in empty_dicts or len(D[2]) != 1 or D[2][0][0] != 'appendidx':
         return None
     op, key, x, chain = D[2][0]
     size = hi if lo == C(0) else (lin_const(BIN('Sub', hi, lo)) or BIN('Sub', hi, lo))
